@@ -91,6 +91,9 @@ def _immutable_literal(v):
         return all(_immutable_literal(x) for x in v.elts)
     if isinstance(v, ast.UnaryOp) and isinstance(v.op, ast.USub):
         return _immutable_literal(v.operand)
+    if isinstance(v, ast.Call) and isinstance(v.func, (ast.Name, ast.Attribute)) and (
+            getattr(v.func, 'id', None) or v.func.attr) in ('itemgetter', 'attrgetter') and v.args and not v.keywords:
+        return all(isinstance(x, ast.Constant) for x in v.args)        # getter objects are immutable
     if isinstance(v, ast.Call) and isinstance(v.func, ast.Name) and v.func.id == 'frozenset' and len(v.args) == 1 \
             and not v.keywords and isinstance(v.args[0], (ast.Tuple, ast.List, ast.Set)):
         return all(_immutable_literal(x) for x in v.args[0].elts)
@@ -357,11 +360,34 @@ def erase_named_tuples(trees):
         visit_FunctionDef = visit_AsyncFunctionDef = _func
 
         def visit_Call(self, node):
+            # <record>._asdict() : the dict display of its fields (judged before the record's
+            # constructor call is erased)
+            if isinstance(node.func, ast.Attribute) and node.func.attr == '_asdict' and not node.args and not node.keywords:
+                v = node.func.value
+                tn = None
+                if isinstance(v, ast.Name) and v.id in self.local[-1]:
+                    tn = self.local[-1][v.id]
+                elif isinstance(v, ast.Call) and ctor(v):
+                    tn = ctor(v)
+                if tn is not None:
+                    v2 = self.visit(v)
+                    fs = types[tn]
+                    if isinstance(v2, ast.Tuple) and len(v2.elts) == len(fs):
+                        vals = list(v2.elts)
+                    else:
+                        vals = [ast.Subscript(value=copy.deepcopy(v2), slice=ast.Constant(value=i), ctx=ast.Load())
+                                for i in range(len(fs))]
+                    d = ast.Dict(keys=[ast.Constant(value=f) for f in fs], values=vals)
+                    return ast.fix_missing_locations(ast.copy_location(d, node))
             self.generic_visit(node)
             if ctor(node):
                 t = as_tuple(node)
                 if t is not None:
                     return t
+            # dict(<dict display>) is that display
+            if isinstance(node.func, ast.Name) and node.func.id == 'dict' and len(node.args) == 1 and not node.keywords \
+                    and isinstance(node.args[0], ast.Dict):
+                return node.args[0]
             return node
 
         def visit_Attribute(self, node):
